@@ -17,26 +17,28 @@ func init() { Registry["C05"] = C05 }
 
 // include files of C05 (name -> text). "both" exists in the include and the exclude directory with different content.
 var c05Files = ref.Files{
-	"plain":    "foo\nbar\n",
-	"messy":    "##! a comment\n\n  foo\n\tbar|baz\n   \n",
-	"pre":      "##!^ p+\nfoo\nbar\n",
-	"suf":      "##!$ s?\nfoo\nbar\n",
-	"presuf":   "##!^ p+\n##!$ s?\nfoo\nbar\n",
-	"owndef":   "##!> define d [0-9]{2}\n{{d}}x\nbar\n",
-	"samedef":  "##!> define n inner\n{{n}}a\nbar\n",
-	"leak":     "##!> define leak secret\nfoo\n",
-	"usesouter": "a{{n}}b\nfoo\n",
-	"depth2":   "one\n##!> include plain\ntwo\n",
-	"depth3":   "zero\n##!> include depth2\n##!> include pre\n",
-	"empty":    "",
-	"withblock": "##!> assemble\nab\n##!=>\ncd\n##!<\nef\n",
-	"both":     "fromincludedir\n",
-	"onlyexcl":  "", // placeholder: lives in the exclude directory only
-	"flagged":  "##!+ i\nfoo\n",
-	"dleft":    "l1\n##!> include plain\n",
-	"dright":   "r1\n##!> include plain\n",
-	"diamond":  "##!> include dleft\n##!=>\n##!> include dright\n",
-	"twice":    "##!> include plain\n##!=>\n##!> include plain\n",
+	"plain":         "foo\nbar\n",
+	"messy":         "##! a comment\n\n  foo\n\tbar|baz\n   \n",
+	"pre":           "##!^ p+\nfoo\nbar\n",
+	"suf":           "##!$ s?\nfoo\nbar\n",
+	"presuf":        "##!^ p+\n##!$ s?\nfoo\nbar\n",
+	"owndef":        "##!> define d [0-9]{2}\n{{d}}x\nbar\n",
+	"samedef":       "##!> define n inner\n{{n}}a\nbar\n",
+	"leak":          "##!> define leak secret\nfoo\n",
+	"usesouter":     "a{{n}}b\nfoo\n",
+	"depth2":        "one\n##!> include plain\ntwo\n",
+	"depth3":        "zero\n##!> include depth2\n##!> include pre\n",
+	"empty":         "",
+	"withblock":     "##!> assemble\nab\n##!=>\ncd\n##!<\nef\n",
+	"both":          "fromincludedir\n",
+	"onlyexcl":      "", // placeholder: lives in the exclude directory only
+	"flagged":       "##!+ i\nfoo\n",
+	"defprefix":     "##!> define sep [/x]\n##!^ {{sep}}+\n##!$ {{sep}}\nbin\netc\n",
+	"samedefprefix": "##!> define n inner\n##!^ {{n}}\nfoo\nbar\n",
+	"dleft":         "l1\n##!> include plain\n",
+	"dright":        "r1\n##!> include plain\n",
+	"diamond":       "##!> include dleft\n##!=>\n##!> include dright\n",
+	"twice":         "##!> include plain\n##!=>\n##!> include plain\n",
 }
 
 func c05Tree() core.Tree {
@@ -278,9 +280,9 @@ func C05(r *core.Run) {
 	})
 	// conformance through the CLI: every case's including program, once
 	type confRes struct {
-		A        string
-		In, Cli  string
-		Agree    bool
+		A       string
+		In, Cli string
+		Agree   bool
 	}
 	conf, d2 := core.Parallel(r, "conf", in{dir, cases, 0}, r.Workers, func(in in, shard, n int, emit func(confRes)) {
 		wd := filepath.Join(in.Dir, fmt.Sprint("c", shard))
